@@ -52,6 +52,7 @@ def frozen_part(chk):
 
   def replay(hist, idx):
     obj = {1: {}}
+    shadow = {}
     origin = {1: 'source'}
     # rendering of nested mappings created by the user: plain dict / a dict subclass / a dict inside a one-element list
     flavour = ('dict', 'OrderedDict', 'list-wrapped')[idx % 3]
@@ -78,7 +79,8 @@ def frozen_part(chk):
         elif o == 'freeze':
           src = obj[op['src']]
           obj[op['new']] = [freeze, FrozenDict, lambda s: FrozenDict(**s) if all(isinstance(k, str) for k in s) else FrozenDict(s),
-                            via_restore][(idx + step) % 4](src)
+                            via_restore, lambda s: freeze(types.MappingProxyType(s)), lambda s: freeze(collections.ChainMap(s)),
+                            lambda s: FrozenDict(collections.UserDict(s))][(idx + step) % 7](src)
         elif o == 'unfreeze':
           fd = obj[op['fd']]
           obj[op['new']] = [unfreeze, lambda f: f.unfreeze()][(idx + step) % 2](fd)
@@ -100,6 +102,8 @@ def frozen_part(chk):
             obj[op['new']] = fd.copy(types.MappingProxyType(add))
           else:
             obj[op['new']] = fdmod.copy(fd, add)
+          # the other spellings build the same FrozenDict: kept as shadows and compared with the specification at every later step
+          shadow[op['new']] = [fdmod.copy(fd, add), fd.copy(add)]
         elif o == 'pop':
           fd = obj[op['fd']]
           new, val = (fd.pop(op['key']) if (idx + step) % 2 else fdmod.pop(fd, op['key']))
@@ -124,6 +128,10 @@ def frozen_part(chk):
         if i not in obj:
           continue
         want = model_val(v)
+        for sh in shadow.get(i, ()):
+          if real_val(sh) != want:
+            where_sh = (':' + origin.get(op['d'], 'source') + '-mutated') if (flavour == 'list-wrapped' and o == 'set') else ''
+            return key + where_sh, f'step {step} ({op}): a FrozenDict built by the other spelling of copy for #{i} has value {real_val(sh)}, specification {want} — it changed after construction'
         try:
           got = real_val(obj[i])
         except Exception as ex:
